@@ -102,13 +102,20 @@ def build_one(tu_text, flavour, extra_flags='', name='tu', guard=True):
     src = os.path.join(d, name + '.cpp')
     with open(src, 'w') as f: f.write(tu_text)
     cmd = [cc] + flags.split() + extra_flags.split() + ['-w'] + (['-D' + GUARD] if guard else []) + ['-I', inc, '-I', os.path.join(VERIF, 'harness'), src, '-o', binp + '.tmp']
-    try:
-        r = subprocess.run(cmd, capture_output=True, text=True, timeout=900)
-    except subprocess.TimeoutExpired:
-        return None, 'compiler timeout'
-    if r.returncode != 0:
+    out = ''
+    for attempt in (0, 1):
+        try:
+            r = subprocess.run(cmd, capture_output=True, text=True, timeout=1500)
+        except subprocess.TimeoutExpired:
+            out = 'TRANSIENT: compiler timeout'; continue
+        if r.returncode == 0: break
         out = (r.stdout + r.stderr)[:6000]
+        # a compiler killed by the machine (memory pressure, signals) says nothing about the sources: retry once, never cache
+        if r.returncode < 0 or any(t in out for t in ('Killed', 'internal compiler error', 'memory exhausted', 'Cannot allocate', 'Resource temporarily unavailable')):
+            out = 'TRANSIENT: ' + out; time.sleep(5); continue
         with open(os.path.join(d, 'FAILED'), 'w') as f: f.write(out)
+        return None, out
+    else:
         return None, out
     os.rename(binp + '.tmp', binp)
     return binp, ''
@@ -201,6 +208,11 @@ class Verdict:
         self.other[prop + '.' + key] = self.other.get(prop + '.' + key, 0) + count
     def finish(self, coverage, assumptions, level='exploration'):
         wall = time.time() - self.t0
+        transient = [h for h in self.harness_errors if 'TRANSIENT:' in h]
+        if transient:
+            self.harness_errors = [h for h in self.harness_errors if 'TRANSIENT:' not in h]
+            for h in transient[:5]: print('INCONCLUSIVE: %s' % h[:300])
+            self.inconclusive.extend({'build': h[:300]} for h in transient[:10])
         os.makedirs(os.path.join(EVID, 'replays'), exist_ok=True)
         new = []; knownhits = {}
         for key, e in self.viol.items():
